@@ -16,6 +16,11 @@ INSTRUMENT = {
     "C05": ["kawin.solver", "kawin.GenericModel"],
     "C07": ["kawin.precipitation.PopulationBalance", "kawin.precipitation.coupling.GrainGrowth"],
     "C08": ["kawin.precipitation.PopulationBalance"],
+    "C09": ["kawin.diffusion.DiffusionParameters"],
+    "C14": ["kawin.precipitation.NucleationRate", "kawin.precipitation.parameters.Nucleation"],
+    "C15": ["kawin.precipitation.parameters.ShapeFactors"],
+    "C17": ["kawin.diffusion.HomogenizationParameters"],
+    "C18": ["kawin.precipitation.coupling.Strength"],
 }
 
 
@@ -35,6 +40,12 @@ def main():
         import kawin.GenericModel  # noqa
         import kawin.precipitation.PopulationBalance  # noqa
         import kawin.precipitation.coupling.GrainGrowth  # noqa
+        import kawin.precipitation.coupling.Strength  # noqa
+        import kawin.precipitation.NucleationRate  # noqa
+        import kawin.precipitation.parameters.Nucleation  # noqa
+        import kawin.precipitation.parameters.ShapeFactors  # noqa
+        import kawin.diffusion.DiffusionParameters  # noqa
+        import kawin.diffusion.HomogenizationParameters  # noqa
     from .runner import load_module, load_findings, get_clauses
     from hypothesis import given, settings, HealthCheck, Phase, Verbosity
     mod = load_module(prop)
